@@ -13,7 +13,7 @@ LABELS = ['alpha', 'Alpha', 'ALPHA', 'beta', 'gamma', 'delta']
 TEXTS = ['m one', 'm two', 'm three', '', 'Complete', 'Great work!']
 TITLES = ['T1', 'T2', 'Instructor Feedback', '']
 SCORES = [0, 1, 2, 5, 0.25, 0.5, 0.1, 0.07, 1.5, '+1', '+3', '+0.25', '10%', '25%', '+50%', '+5%', '-1', '-0.5',
-          '-10%', '-25%', '33%', '0.33', -2, -0.25, '7', '0.005', '+0.015']
+          '-10%', '-25%', '33%', '0.33', -2, -0.25, '7', '0.005', '+0.015', '.25', '.5', '.5%', '+.2', '-.05', '1.', '+1.%']
 PARENTS = [None, 1, 2, 'g']
 FIELD_KEYS = ['k', 'n']
 FIELD_VALUES = [1, 2, 'x']
@@ -130,6 +130,9 @@ def scenario_strategy(max_feedback=8, max_sup=4, score_bias=False, correct_bias=
         'sups': st.lists(_SUP, max_size=max_sup),
         'sup_pos': st.lists(st.integers(0, max_feedback), min_size=max_sup, max_size=max_sup),
         'resolver': st.sampled_from(list(resolvers)),
+    }, optional={
+        # the report was already resolved before (results discarded): with the default key, or with an instructor's own priority key
+        'earlier': st.lists(st.sampled_from(['simple', 'full', 'simple-reversed-key', 'full-reversed-key']), min_size=1, max_size=2),
     })
 
 
